@@ -5,6 +5,7 @@ Theorems about `normalizeNodeURI` on structured overrides (`Model/NodeURI.lean`)
 and about `net.JoinHostPort` / `net.SplitHostPort` on character lists.
 -/
 import Vipnode.Model.NodeURI
+import Vipnode.Lemmas.Store
 namespace Vipnode.C19
 open Vipnode
 
@@ -137,5 +138,38 @@ example :
     (normalizeNodeURI none "me" "10.0.0.1" "30303").toOption.map (·.render) = some "enode://me@10.0.0.1:30303" ∧
     (normalizeNodeURI (some { hostname := "1.2.3.4", username := "other" }) "me" "10.0.0.1" "30303").toOption = none ∧
     (normalizeNodeURI (some { hostname := "::" }) "me" "" "30303").toOption = none := by decide
+
+/-! ### the advertised address stays the registered one
+
+Keep-alives rewrite a node's record on every round.  They only refresh the check-in and the block number: the URI
+(and kind, role, payout) a host registered last is what the pool stores and hands out, whatever keep-alives of
+whichever node come in between (`conc noderace`: the re-registration racing the node's own keep-alive; seeded
+change C19-r5 wrote back a record read before the re-registration). -/
+
+/-- a keep-alive of `id` leaves every other node's record alone and changes nothing of `id`'s own record but the
+check-in and the block number -/
+theorem keepalive_keeps_registration (s s' : Store) (id : String) (reported : List String) (block : Nat) (now : Int)
+    (inactive : List String) (h : s.updateNodePeers id reported block now = .ok (s', inactive)) :
+    (∀ other, other ≠ id → s'.nodes.get other = s.nodes.get other) ∧
+    ∃ n, s.nodes.get id = some n ∧ s'.nodes.get id = some { n with lastSeen := now, block := block } := by
+  unfold Store.updateNodePeers at h
+  cases hn : s.nodes.get id with
+  | none => simp [hn] at h
+  | some n =>
+    simp only [hn] at h
+    cases h
+    refine ⟨?_, n, rfl, ?_⟩
+    · intro other hne
+      exact AList.get_set_ne _ _ (Ne.symm hne)
+    · exact AList.get_set_eq _ _ _
+
+/-- hence the URI handed out for a host is the one of its latest registration, across any keep-alive -/
+theorem keepalive_keeps_uri (s s' : Store) (id who : String) (reported : List String) (block : Nat) (now : Int)
+    (inactive : List String) (h : s.updateNodePeers who reported block now = .ok (s', inactive)) :
+    (s'.nodes.get id).map (·.uri) = (s.nodes.get id).map (·.uri) := by
+  obtain ⟨ho, n, hn, hn'⟩ := keepalive_keeps_registration s s' who reported block now inactive h
+  by_cases e : id = who
+  · subst e; rw [hn, hn']; rfl
+  · rw [ho id e]
 
 end Vipnode.C19
